@@ -11,6 +11,7 @@ import OdlModel.Lemmas.WeightedSpace
 import OdlModel.Model.Prox
 import OdlModel.Model.FunctionalsLeaves
 import Mathlib.Analysis.SpecialFunctions.Log.Deriv
+import Mathlib.Analysis.SpecialFunctions.Sqrt
 import Mathlib.Analysis.InnerProductSpace.Calculus
 import Mathlib.Analysis.InnerProductSpace.Adjoint
 import Mathlib.Analysis.Calculus.Gradient.Basic
@@ -1243,3 +1244,83 @@ example : sepDeriv [(⟨[1, 1], .l2sq, [1, 2], [1, 0]⟩ : SepPart ℚ), ⟨[1 /
   simp at hp
   rcases hp with rfl | rfl <;> simp [Fn.grad, listOps]
 end sep
+
+/-! ### ROUND 4: L2Norm -/
+/-- `L2Norm.gradient` on any real Hilbert space: at every `x ≠ 0` the coded `x / ‖x‖` is the
+gradient of `z ↦ ‖z‖` w.r.t. the space's own inner product. -/
+theorem C09.l2norm_grad {E : Type} [NormedAddCommGroup E] [InnerProductSpace ℝ E] [CompleteSpace E]
+    (x : E) (hx : x ≠ 0) : HasGradientAt (fun z : E => ‖z‖) ((1 / ‖x‖) • x) x := by
+  have hn : ‖x‖ ≠ 0 := norm_ne_zero_iff.mpr hx
+  have hq : (⟪x, x⟫ : ℝ) ≠ 0 := by rw [real_inner_self_eq_norm_sq]; positivity
+  have h1 : HasFDerivAt (fun z : E => (⟪z, z⟫ : ℝ)) _ x :=
+    HasFDerivAt.inner ℝ (hasFDerivAt_id x) (hasFDerivAt_id x)
+  have h2 := HasDerivAt.comp_hasFDerivAt (h₂ := fun t : ℝ => Real.sqrt t) (f := fun z : E => (⟪z, z⟫ : ℝ)) x
+    (Real.hasDerivAt_sqrt hq) h1
+  have hf : (fun z : E => ‖z‖) = (Real.sqrt ∘ fun z : E => ⟪z, z⟫) := by
+    funext z; simp [real_inner_self_eq_norm_sq]
+  rw [hf]
+  refine C09.hasGradientAt_of_fderiv h2 ?_
+  intro d
+  simp [fderivInnerCLM_apply, inner_smul_left, real_inner_comm, real_inner_self_eq_norm_sq]
+  field_simp
+  ring
+
+/-- At `x = 0` the norm has NO gradient (in any space with a non-zero vector): the zero vector
+that `L2Gradient._call` returns there is a convention of the code (documented in its docstring),
+not a gradient — which is why `x = 0` is excluded from `l2norm_grad_sound_weighted`. -/
+theorem C09.l2norm_no_grad_at_zero {E : Type} [NormedAddCommGroup E] [InnerProductSpace ℝ E]
+    [CompleteSpace E] (v : E) (hv : v ≠ 0) (g : E) : ¬ HasGradientAt (fun z : E => ‖z‖) g 0 := by
+  intro h
+  have h1 := h.hasFDerivAt
+  have h2 : HasDerivAt (fun t : ℝ => t • v) v 0 := by
+    simpa using (hasDerivAt_id (0 : ℝ)).smul_const v
+  have h3 := h1.comp_hasDerivAt_of_eq (0 : ℝ) h2 (by simp)
+  have hv' : ‖v‖ ≠ 0 := norm_ne_zero_iff.mpr hv
+  have h4 : DifferentiableAt ℝ (fun t : ℝ => |t|) 0 := by
+    have := (h3.differentiableAt).mul_const (‖v‖⁻¹)
+    refine this.congr_of_eventuallyEq (Filter.Eventually.of_forall fun t => ?_)
+    simp [norm_smul, Function.comp, mul_assoc, hv']
+  exact not_differentiableAt_abs_zero h4
+
+section l2w
+variable {n : ℕ} (w : Fin n → ℝ) [hw : Fact (∀ i, 0 < w i)]
+
+/-- The executed list value `sqrt(Σ wᵢ zᵢ²)` is the norm of `WSp w` (helper). -/
+theorem C09.l2Val_eq_norm (z : WSp w) : l2Val Real.sqrt (List.ofFn w) (List.ofFn z.val) = ‖z‖ := by
+  unfold l2Val
+  rw [← C09.wOps_norm_sq, Real.sqrt_sq (norm_nonneg _)]
+
+/-- **`L2Norm.gradient` is the gradient of `L2Norm._call` on every weighted space** (all `n`, all
+weights `w > 0`): at every `x ≠ 0` the EXECUTED list gradient `l2Grad` (with `sqrt := Real.sqrt`;
+the driver runs the same definition with a rational root, stream `leaves/l2`) is the gradient,
+w.r.t. the weighted inner product, of the executed value `l2Val`. Discharges the leaf hypothesis
+of `grad_sound` for an L2-norm leaf. -/
+theorem C09.l2norm_grad_sound_weighted (x : WSp w) (hx : x ≠ 0) :
+    HasGradientAt (fun z : WSp w => l2Val Real.sqrt (List.ofFn w) (List.ofFn z.val))
+      (WSp.of (ofL (l2Grad Real.sqrt (List.ofFn w) (List.ofFn x.val)))) x := by
+  have hf : (fun z : WSp w => l2Val Real.sqrt (List.ofFn w) (List.ofFn z.val)) = fun z => ‖z‖ :=
+    funext (C09.l2Val_eq_norm w)
+  have hn : ‖x‖ ≠ 0 := norm_ne_zero_iff.mpr hx
+  have hg : (WSp.of (ofL (l2Grad Real.sqrt (List.ofFn w) (List.ofFn x.val))) : WSp w)
+      = (1 / ‖x‖) • x := by
+    have e := C09.l2Val_eq_norm w x
+    unfold l2Val at e
+    unfold l2Grad
+    rw [e, if_neg hn, ofL_map_ofFn]
+    apply WSp.ext'
+    funext i
+    show x.val i / ‖x‖ = (1 / ‖x‖) * x.val i
+    ring
+  rw [hf, hg]
+  exact C09.l2norm_grad x hx
+end l2w
+
+/-- Non-vacuity: `uniform_discr` with two cells of volume 1/4 at `x = (3, −4)`. -/
+example : HasGradientAt
+    (fun z : WSp ![1 / 4, 1 / 4] => l2Val Real.sqrt (List.ofFn (![1 / 4, 1 / 4] : Fin 2 → ℝ)) (List.ofFn z.val))
+    (WSp.of (ofL (l2Grad Real.sqrt (List.ofFn (![1 / 4, 1 / 4] : Fin 2 → ℝ))
+      (List.ofFn (WSp.of ![3, -4] : WSp ![1 / 4, 1 / 4]).val)))) (WSp.of ![3, -4]) := by
+  apply C09.l2norm_grad_sound_weighted
+  intro h
+  have := congrFun (congrArg WSp.val h) 0
+  simp [WSp.val_of, WSp.val_zero] at this
